@@ -348,14 +348,23 @@ def render_tables() -> str:
     o.append("inductive Mode | allow | restrict deriving DecidableEq, Repr\n")
     o.append("/-- one `add_constraint` call site with a literal state list -/")
     o.append("structure Con where")
-    o.append("  file : String\n  line : Nat\n  method : String\n  mode : Mode\n  states : List String")
+    o.append("  file : String\n  line : Nat   -- ordinal of the call site inside `file`\n  method : String\n  mode : Mode\n  states : List String")
     o.append("  deriving Repr, DecidableEq\n")
+    # `line` holds the ORDINAL of the call site inside its file (0, 1, …), not the source line, so that edits which
+    # merely shift lines do not change the tables
+    def _ordinals(rs):
+        seen, out = {}, []
+        for r in rs:
+            k = seen.get(r[0], 0)
+            seen[r[0]] = k + 1
+            out.append((r[0], k) + tuple(r[2:]))
+        return out
     o.append("def constraints : List Con := [")
-    o.append(",\n".join('  ⟨"%s", %d, "%s", .%s, %s⟩' % (f, l, t, m, _lstr(s)) for f, l, t, m, s in rows))
+    o.append(",\n".join('  ⟨"%s", %d, "%s", .%s, %s⟩' % (f, l, t, m, _lstr(s)) for f, l, t, m, s in _ordinals(rows)))
     o.append("]\n")
-    o.append("/-- call sites whose state list is computed at run time: (file, line, method, mode, expression) -/")
+    o.append("/-- call sites whose state list is computed at run time: (file, ordinal, method, mode, expression) -/")
     o.append("def dynamicConstraints : List (String × Nat × String × Mode × String) := [")
-    o.append(",\n".join('  ("%s", %d, "%s", .%s, "%s")' % (f, l, t, m, e) for f, l, t, m, e in dynamic))
+    o.append(",\n".join('  ("%s", %d, "%s", .%s, "%s")' % (f, l, t, m, e) for f, l, t, m, e in _ordinals(dynamic)))
     o.append("]\n")
     o.append("/-- number of priority buckets per event channel and the default listener priority -/")
     o.append("def nBuckets : Nat := %d" % n_buckets)
